@@ -3,6 +3,7 @@
 //verif:replace@C17d github.com/mimecast/dtail/internal/ssh.KeyFile = verifKeyFile
 //verif:replace@C17d github.com/mimecast/dtail/internal/ssh.Agent = verifAgent
 //verif:replace@C17d os.Stat = verifNoFile
+//verif:replace@C17d github.com/mimecast/dtail/internal/ssh/client.GeneratePrivatePublicKeyPairIfNotExists = verifNoKeyPair
 //verif:replace@C17d math/rand.New = verifRandNew
 //verif:replace@C17d math/rand.NewSource = verifRandSource
 //verif:replace@C17d (*math/rand.Rand).Intn = verifIntn
@@ -89,11 +90,13 @@ func verifDial(network, addr string, config *gossh.ClientConfig) (*gossh.Client,
 
 func verifKeyFile(keyFile string) (gossh.AuthMethod, error) {
 	VerifKeysRead = append(VerifKeysRead, keyFile)
-	if keyFile == "/home/u/key" || keyFile == "/home/u/.ssh/id_rsa" {
+	if keyFile == "/home/u/key" || keyFile == "/home/u/.ssh/id_rsa" || keyFile == "./id_rsa" {
 		return gossh.Password("key"), nil
 	}
 	return nil, errors.New("open " + keyFile + ": no such file or directory")
 }
+// (the integration test mode generates an RSA key pair: not the subject)
+func verifNoKeyPair(keyPath string, bitSize int) {}
 func verifAgent() (gossh.AuthMethod, error)          { return nil, errors.New("no agent") }
 func verifNoFile(name string) (os.FileInfo, error)    { return nil, errors.New("no such file") }
 type verifFileInfo struct{ name string }
